@@ -299,6 +299,9 @@ def seeded_refute(goal, inputs, axioms=(), tries=6, seed=0, timeout_ms=20000, as
     return None
 
 
+QUIET = dict(queries=0, by_simplify=0, refuted_by_evaluation=0, solver_s=0.0)     # identity checks made outside Prover.prove (folded into the result by explore)
+
+
 def is_identity(goal, seconds=10.0):
     """Quiet check that goal holds for all values (no assumptions): seeded evaluation, then a killable solver run."""
     from vp import symx
@@ -309,20 +312,27 @@ def is_identity(goal, seconds=10.0):
             pairs.append((c, z3.BitVecVal(v, c.size()) if z3.is_bv(c) else (z3.IntVal(v) if c.is_int() else E.R(v))))
         try:
             if z3.is_false(EvalModel(pairs).eval(goal)):
+                QUIET['refuted_by_evaluation'] += 1
                 return False
         except z3.Z3Exception:
             pass
-    if z3.is_true(z3.simplify(goal)):
-        return True
-    s = z3.Solver()
-    s.set('timeout', 3000)
-    s.add(z3.Not(goal))
-    r = str(s.check())             # the seeded points agree: almost surely an identity, settled by normalisation
-    if r == 'unknown':
+    t0 = time.time()
+    QUIET['queries'] += 1
+    try:
+        if z3.is_true(z3.simplify(goal)):
+            QUIET['by_simplify'] += 1
+            return True
         s = z3.Solver()
+        s.set('timeout', 3000)
         s.add(z3.Not(goal))
-        r, _ = symx.forked_check(s, [], seconds, [])
-    return r == 'unsat'
+        r = str(s.check())             # the seeded points agree: almost surely an identity, settled by normalisation
+        if r == 'unknown':
+            s = z3.Solver()
+            s.add(z3.Not(goal))
+            r, _ = symx.forked_check(s, [], seconds, [])
+        return r == 'unsat'
+    finally:
+        QUIET['solver_s'] += time.time() - t0
 
 
 def prove_identity(pr, goal, desc, witness_fn=None, sample=True):
@@ -391,6 +401,7 @@ def explore(res, body, max_paths=2000, timeout_ms=30000, float_mode='regular', p
     """Run body(ex, PathProver) over all paths; folds executor statistics into res."""
     from vp import symx
     ex = symx.Executor(max_paths=max_paths, timeout_ms=timeout_ms)
+    q0 = dict(QUIET)
 
     def one(ex):
         CTX.reset(ex=ex, float_mode=float_mode, precision=precision, exact=exact)
@@ -400,6 +411,8 @@ def explore(res, body, max_paths=2000, timeout_ms=30000, float_mode='regular', p
     res['paths'] += st['paths']
     res['queries'] += st['queries']
     res['solver_s'] += st['solver_s']
+    res['queries'] += QUIET['queries'] - q0['queries']
+    res['solver_s'] += QUIET['solver_s'] - q0['solver_s']
     if st['exhausted']:
         res['unknown'].append(f'path budget exhausted ({max_paths} paths)')
     if st['unknowns']:
